@@ -24,6 +24,7 @@ RULE = (
     "precedence levels, or a function nested in another, or a non-canonical literal spelling, and the CB run stayed in the "
     "domain; distinct by sha1 of the AST"
 )
+RULE += ' Also: every 1-3-operator tree is enumerated (plain and inside ABS), every 1-2-operator tree (1-3 thorough) with one negated leaf or negated as a whole in assignment and IF context, and flat chains of 8-28 operands at one precedence level (sums, products, AND/OR, sums of products, concatenations) are drawn; one case in three is rendered in a drawn layout; relational operators also in their reversed spellings =< =>. A refusal of a generated program counts as a violation.'
 ASSUMPTIONS = [
     "CB-1..CB-9 and B09-1..B09-8 of DESIGN.md section 3 (precedence, associativity, typing, built-ins); uncertain zones U-1..U-7 are not generated",
     "arithmetic is exact rationals / doubles on both sides; number formatting is abstract (printed numbers compare by value)",
